@@ -104,6 +104,9 @@ mut("eq_h2g_parallel_correct", "group.go", "\tq0 := SSWU(u0)\n\tq1 := SSWU(u1)\n
 mut("eq_h2s_waits_for_a_real_timer", "group.go", "\tuniform := expandXMD(input, dst, uint(secLength))\n\ts := NewScalar()\n", "\tcheckDST(dst)\n\n\tdone := make(chan []byte)\n\n\tgo func() { done <- expandXMD(input, dst, uint(secLength)) }()\n\n\tvar uniform []byte\n\n\tselect {\n\tcase uniform = <-done:\n\tcase <-time.After(time.Minute):\n\t\tpanic(\"hashing did not finish\")\n\t}\n\n\t<-time.After(200 * time.Microsecond) // pointless but legal: waits for the real clock\n\n\ts := NewScalar()\n", [],
     "HashToScalar hashes in a goroutine it joins through a select with a timeout, then waits for a real timer: every task is then blocked on a channel with nothing runnable until the real clock fires - that is not a deadlock",
     extra=[("group.go", "import (\n", "import (\n\t\"time\"\n\n", 1)])
+mut("eq_percall_oncevalue", "group.go", "\tuniform := expandXMD(input, dst, uint(secLength))\n\ts := NewScalar()\n", "\tget := sync.OnceValue(func() []byte { return expandXMD(input, dst, uint(secLength)) })\n\tuniform := get()\n\t_ = get()\n\ts := NewScalar()\n", [],
+    "HashToScalar computes through a sync.OnceValue created inside the call: per-call state, not package state (only once-functions created during package initialisation are)",
+    extra=[("group.go", "import (\n", "import (\n\t\"sync\"\n\n", 1)])
 mut("c16only_random_prefetch_two_blocks", "scalar.go", "\t\t_, err := io.ReadFull(rand.Reader, buf[:])\n\t\tif err != nil {\n\t\t\tpanic(err)\n\t\t}\n", "\t\tnextEntropyBlock(&buf)\n", ["C16"],
     "Random draws 64 bytes at a time into a mutex-protected package buffer and hands out 32-byte blocks in order, dropping everything on failure: in spec for C18 (each delivered block used once, in order), but it is mutable package state (C16)",
     extra=[("scalar.go", "// Random sets the current Scalar to a new random Scalar and returns it.", "var entropyBuf struct {\n\tsync.Mutex\n\tbuf  [64]byte\n\thave int\n\toff  int\n}\n\nfunc nextEntropyBlock(out *[32]byte) {\n\tentropyBuf.Lock()\n\tdefer entropyBuf.Unlock()\n\n\tif entropyBuf.have-entropyBuf.off < 32 {\n\t\tentropyBuf.have, entropyBuf.off = 0, 0\n\n\t\tif _, err := io.ReadFull(rand.Reader, entropyBuf.buf[:]); err != nil {\n\t\t\tpanic(err)\n\t\t}\n\n\t\tentropyBuf.have = 64\n\t}\n\n\tcopy(out[:], entropyBuf.buf[entropyBuf.off:entropyBuf.off+32])\n\tentropyBuf.off += 32\n}\n\n// Random sets the current Scalar to a new random Scalar and returns it.", 1),
